@@ -27,11 +27,11 @@ func mustDeref(t types.Type) types.Type {
 
 // Program is the shared, read-only part: SSA program plus interpreter tables.
 type Program struct {
-	Prog      *ssa.Program
-	InitPaths []string // packages whose init is executed on every path (in order)
-	Allow     []string // package path prefixes that are interpreted from source
+	Prog       *ssa.Program
+	InitPaths  []string // packages whose init is executed on every path (in order)
+	Allow      []string // package path prefixes that are interpreted from source
 	HarnessPkg *ssa.Package
-	errType   types.Type // harness OpaqueErr type (value type implementing error)
+	errType    types.Type // harness OpaqueErr type (value type implementing error)
 
 	reflectPackage     *ssa.Package
 	errorMethods       methodSet
